@@ -12,3 +12,10 @@ package internal
 //@   ghost at after TimeoutInterceptor#0: ti = true
 //@   call TimeoutInterceptor#0: assert arg_timeout == timeout
 //@   ensures_local ti == old(c.middlewares.Timeout)
+
+// C04 the client timeout option sets the timeout it is given - larger or smaller than what the configuration put there before
+//@ func WithTimeout closure 0
+//@   property C04
+//@   requires options != nil
+//@   ensures options.Timeout == timeout
+//@   modifies options.Timeout
